@@ -3,6 +3,9 @@ import Memterm.Props.C06
 import Memterm.Props.C07
 import Memterm.Props.C13
 import Memterm.Props.C18
+import Memterm.Props.C08
+import Memterm.Props.C12
+import Memterm.Props.C14
 
 /-
   Executable property predicates, evaluated by the driver on the
@@ -23,6 +26,12 @@ def propFailures (_env : Env) (cands : List Nat) (pre : Screen) (c : Call) (post
   (if C13.propC13 cands pre c post then [] else
     [("C13", s!"cursor row after {c.name} is not the documented splice, or another row / the cursor / settings changed")]) ++
   (if C18.propC18 cands pre c post then [] else
-    [("C18", s!"tab stops / cursor after {c.name} differ from the documented outcome (cursor.x={post.cursor.x})")])
+    [("C18", s!"tab stops / cursor after {c.name} differ from the documented outcome (cursor.x={post.cursor.x})")]) ++
+  (if C08.propC08 cands pre c post then [] else
+    [("C08", s!"rendition after SGR is not the documented fold (got fg={post.cursor.attr.fg} bg={post.cursor.attr.bg}), or something else changed")]) ++
+  (if C12.propC12 cands pre c post then [] else
+    [("C12", s!"mode membership or a documented side effect of {c.name} is wrong (columns={post.columns}, cursor=({post.cursor.x},{post.cursor.y}), hidden={post.cursor.hidden})")]) ++
+  (if C14.propC14 cands pre c post then [] else
+    [("C14", s!"saved-cursor stack / restored state after {c.name} differ from the documented outcome (depth {post.savepoints.length}, cursor=({post.cursor.x},{post.cursor.y}))")])
 
 end Memterm
